@@ -264,8 +264,10 @@ Definition pkg_create (prof : profile) (t : ptype) : res pkg :=
   match pkg_flush k1 with Some k2 => Ok k2 | None => Err end.
 
 (* ---- open ---------------------------------------------------------------------------------------- *)
-Definition as_str_v (v : value) : res str := match v with VStr s => Ok s | _ => Err end.
-Definition as_int_v (v : value) : res Z := match v with VInt z => Ok z | _ => Err end.
+(* a catalog cell of the wrong kind (in practice: null): unwrap() panics, the repaired reader reports InvalidData *)
+Definition bad_cell {A} : res A := if OPEN_UNWRAPS_CATALOG_CELLS then Panic else Err.
+Definition as_str_v (v : value) : res str := match v with VStr s => Ok s | _ => bad_cell end.
+Definition as_int_v (v : value) : res Z := match v with VInt z => Ok z | _ => bad_cell end.
 
 Fixpoint read_table_names (rows : list (list value)) (seen : list str) : res (list str) :=
   match rows with
